@@ -10,6 +10,10 @@ Arguments OOk {A} a.
 Arguments OPanic {A}.
 Arguments OHang {A}.
 
+(* the harness writes [o1] for the bit pattern of 1.0 (parsing a 19-digit literal per matrix
+   entry dominated the evaluation time); any other value is written as its literal *)
+Definition o1 : N := 4607182418800017408.
+
 Record case18 := mk18 { c_mesh : mesh; c_dual : obs csr; c_bary : obs nat; c_used : obs nat }.
 
 Definition csr_eqb (a b : csr) : bool :=
